@@ -11,7 +11,8 @@ EXPLANATION = (
     "probation candidates are pushed only under ssrc_ok. R18.3: the selected-pair setter cannot overwrite a "
     "latched differing address; the signaling setter resets the latch first. R18.4: the RTCP destination is "
     "written only for RTCP, only while rtcp_latched==false, and is always followed by rtcp_latched=true; no "
-    "remote_addr write is reachable on the RTCP branch. Decides stickiness/legitimacy structure for all "
+    "remote_addr write is reachable on the RTCP branch. R18.5: every path through reset_latch replaces the "
+    "probation state by a fresh one (or None), so no pre-reset observation can count afterwards. Decides stickiness/legitimacy structure for all "
     "packet histories; does not decide which candidate wins (rule precedence) nor the N-packet bound.")
 ASSUMPTIONS = ["probation winner addresses come from the candidates vector (checked: pushes only under ssrc_ok)",
                "unwind edges are not paths"]
@@ -282,5 +283,66 @@ def r18_4(ctx):
     return r
 
 
+def _fresh_value(val):
+    """value is built only from None / Some(RtpProbationState{Vec::new(), 0, ..}) alternatives"""
+    if val[0] == "phi":
+        return all(_fresh_value(v) for v in val[1])
+    if val[0] == "agg":
+        adt, variant, args = val[1], val[2], val[3]
+        if adt.endswith("option::Option") and variant == "None":
+            return True
+        if adt.endswith("option::Option") and variant == "Some":
+            return _fresh_value(args[0])
+        if adt.endswith("RtpProbationState"):
+            cands, total = args[0], args[1]
+            return cands[0] == "call" and cands[1].endswith(("Vec::<T>::new", "Vec::<T>::with_capacity")) \
+                and total[0] == "const" and total[1] == 0
+    return False
+
+
+def _discard_blocks(ctx, body, depth=2):
+    """blocks of `body` that discard every probation observation: a store of a fresh value through the
+    probation guard, Option::take / mem::take on it, or a call of an IceConn method all of whose paths do so"""
+    out = []
+    for bi, si, st, val in core.lock_write_sites(body, "probation", methods=("::lock",)):
+        pl = st["p"]
+        if [e for e in pl.get("p", ()) if e != "*"]:
+            continue          # a write to one field of the state, not a replacement
+        if _fresh_value(val):
+            out.append(bi)
+    for bi, t, path in body.calls():
+        if path and path.endswith(("Option::<T>::take", "mem::take")) and t["a"]:
+            a0 = body.term_operand(t["a"][0])
+            if mir.has_call(a0, "::lock") and mir.has_field(a0, "probation"):
+                out.append(bi)
+        elif path and depth > 0 and path.startswith("transports::ice::conn::IceConn::") and ctx.facts.has_body(path) and path != body.name:
+            cb = ctx.body(path)
+            d = _discard_blocks(ctx, cb, depth - 1)
+            rets = [i for i, b in enumerate(cb.blocks) if b["t"]["k"] == "ret" and i not in cb.cleanup]
+            if d and rets and all(core.must_pass(cb, rb, d) for rb in rets):
+                out.append(bi)
+    return out
+
+
+def r18_5(ctx):
+    r = RuleResult("R18.5", "K4", "a latch reset discards every undecided probation observation")
+    fn = "transports::ice::conn::IceConn::reset_latch"
+    body = ctx.body(fn)
+    r.scope.append(fn)
+    d = _discard_blocks(ctx, body)
+    rets = [i for i, b in enumerate(body.blocks) if b["t"]["k"] == "ret" and i not in body.cleanup]
+    r.need("returns of reset_latch", len(rets), 1)
+    for rb in rets:
+        if d and core.must_pass(body, rb, d):
+            r.ok({"return": body.where(rb), "discard_sites": [body.where(x) for x in d]})
+        else:
+            p = body.path_to([0], rb, cut_blocks=set(d))
+            r.violate(fn, "return", body.where(rb),
+                      "reset_latch can return with the old probation candidates/counters still in place, so packets "
+                      "seen before the reset (old endpoint, old expected SSRC) keep counting towards the winner",
+                      core.describe_path(body, p) if p else "")
+    return r
+
+
 def run(ctx):
-    return [r18_1(ctx), r18_2(ctx), r18_3(ctx), r18_4(ctx)]
+    return [r18_1(ctx), r18_2(ctx), r18_3(ctx), r18_4(ctx), r18_5(ctx)]
